@@ -68,8 +68,13 @@ Definition parse_spec (s : list Z) : parse_s :=
       let D := digits_value (ip ++ fp) in
       let k := Z.of_nat (length fp) - e in
       if 18 <? k then PSErr else
-      let '(c, n) := if 0 <=? k then (D, k) else (D * 10 ^ (- k), 0) in
-      if MAXC <? c then PSErr else PSOk (mkdec (if neg then - c else c) n)
+      if 0 <=? k then (if MAXC <? D then PSErr else PSOk (mkdec (if neg then - D else D) k)) else
+      (* k < 0: the value is the integer D * 10^(-k); decided without forming a huge power:
+         zero stays zero, and D >= 1 with -k >= 39 exceeds 2^127 - 1 < 10^39 *)
+      if D =? 0 then PSOk (mkdec 0 0) else
+      if 39 <=? - k then PSErr else
+      let c := D * 10 ^ (- k) in
+      if MAXC <? c then PSErr else PSOk (mkdec (if neg then - c else c) 0)
   end.
 
 (* known findings of the parser (see known_findings.json) *)
